@@ -1,99 +1,10 @@
-(* TrUc.v -- the hand-written model of uc.c (UcDefs.v and the width/shape parts of RenDefs/ShapeDefs)
-   is what the C text says: for each function, running the CLite term that tools/c2clite.py
-   generated from /repo's uc.c (GenCFuncs.v) gives, for ALL inputs, the value of the model -- and no
-   checked load leaves its block, no signed operation overflows, no fuel runs out. *)
+(* TrUc.v -- uc_end, uc_next, uc_beg, uc_prev, uc_slen, uc_off, uc_chr of uc.c: the hand-written model
+   (UcDefs.v) is what the C text says (see TrUcCode.v for uc_len/uc_code and the general comment). *)
 From Coq Require Import List ZArith NArith Bool Lia.
 From NV Require Import Bytes UcDefs CLite CLiteProps GenCFuncs.
-From NV Require Export CLiteTac.
+From NV Require Export CLiteTac TrUcCode.
 Import ListNotations.
 Local Open Scope Z_scope.
-
-(* ------------------------------------------------------------------ uc_len *)
-Theorem tr_uc_len m b s o d fuel :
-  str_at m b s -> bytes_lt256 s -> (o <= length s)%nat ->
-  callf cprog fuel (S d) F_uc_len [VPtr b (Z.of_nat o)] m
-  = Ok (VInt (Z.of_nat (uc_len_b (nthb s o))), m).
-Proof.
-  intros Hs H256 Ho. enter F_uc_len cf_uc_len. xstep.
-  rewrite (load_str m b s _ o Hs) by lia. xstep. rewrite wrap_byte_chain by (apply nthb_lt256; exact H256).
-  pose proof (nthb_lt256 s o H256) as Hc. generalize dependent (nthb s o). intros c Hc.
-  Time sweep_byte c Hc.
-Time Qed.
-
-(* ------------------------------------------------------------------ uc_code *)
-Lemma cc_c0 : forall c, (c < 256)%N ->
-  negb (Z.land (Z.lnot (Z.of_N c)) 192 =? 0) = negb (bit c 128 && bit c 64).
-Proof. byte_fact. Qed.
-Lemma cc_20 : forall c, (c < 256)%N -> negb (Z.land (Z.lnot (Z.of_N c)) 32 =? 0) = negb (bit c 32).
-Proof. byte_fact. Qed.
-Lemma cc_10 : forall c, (c < 256)%N -> negb (Z.land (Z.lnot (Z.of_N c)) 16 =? 0) = negb (bit c 16).
-Proof. byte_fact. Qed.
-Lemma cc_08 : forall c, (c < 256)%N -> negb (Z.land (Z.lnot (Z.of_N c)) 8 =? 0) = negb (bit c 8).
-Proof. byte_fact. Qed.
-Lemma sh_1f_6 : forall c, (c < 256)%N ->
-  shl32 (Z.land (Z.of_N c) 31) 6 = Ok (Z.of_N (N.shiftl (N.land c 31) 6)).
-Proof. byte_fact. Qed.
-Lemma sh_0f_12 : forall c, (c < 256)%N ->
-  shl32 (Z.land (Z.of_N c) 15) 12 = Ok (Z.of_N (N.shiftl (N.land c 15) 12)).
-Proof. byte_fact. Qed.
-Lemma sh_07_18 : forall c, (c < 256)%N ->
-  shl32 (Z.land (Z.of_N c) 7) 18 = Ok (Z.of_N (N.shiftl (N.land c 7) 18)).
-Proof. byte_fact. Qed.
-Lemma sx_3f : forall c, (c < 256)%N -> Z.land (wrap I32 (wrap I8 (Z.of_N c))) 63 = Z.of_N (N.land c 63).
-Proof. byte_fact. Qed.
-Lemma sh_3f_6 : forall c, (c < 256)%N ->
-  shl32 (Z.of_N (N.land c 63)) 6 = Ok (Z.of_N (N.shiftl (N.land c 63) 6)).
-Proof. byte_fact. Qed.
-Lemma sh_3f_12 : forall c, (c < 256)%N ->
-  shl32 (Z.of_N (N.land c 63)) 12 = Ok (Z.of_N (N.shiftl (N.land c 63) 12)).
-Proof. byte_fact. Qed.
-Lemma len_2 : forall c, (c < 256)%N -> (negb (bit c 128 && bit c 64) || bit c 32) = negb (Nat.eqb (uc_len_b c) 2).
-Proof. byte_fact. Qed.
-Lemma len_3 : forall c, (c < 256)%N -> (negb (bit c 128 && bit c 64) || negb (bit c 32) || bit c 16) = negb (Nat.eqb (uc_len_b c) 3).
-Proof. byte_fact. Qed.
-Lemma len_4 : forall c, (c < 256)%N -> (negb (bit c 128 && bit c 64) || negb (bit c 32) || negb (bit c 16) || bit c 8) = negb (Nat.eqb (uc_len_b c) 4).
-Proof. byte_fact. Qed.
-
-Theorem tr_uc_code m b s o d fuel :
-  str_at m b s -> bytes_lt256 s -> (o + uc_len_b (nthb s o) - 1 <= length s)%nat -> (o <= length s)%nat ->
-  callf cprog fuel (S d) F_uc_code [VPtr b (Z.of_nat o)] m
-  = Ok (VInt (Z.of_N (uc_code (skipn o s))), m).
-Proof.
-  intros Hs H256 Hlen Ho. enter F_uc_code cf_uc_code. xstep.
-  rewrite (load_str m b s _ o Hs) by lia. xstep. rewrite wrap_byte_chain by (apply nthb_lt256; exact H256).
-  unfold uc_code. rewrite !nthb_skipn, Nat.add_0_r.
-  pose proof (nthb_lt256 s o H256) as Hc. pose proof (nthb_lt256 s (o + 1) H256) as H1.
-  pose proof (nthb_lt256 s (o + 2) H256) as H2. pose proof (nthb_lt256 s (o + 3) H256) as H3.
-  pose proof (len_2 _ Hc) as L2. pose proof (len_3 _ Hc) as L3. pose proof (len_4 _ Hc) as L4.
-  set (c := nthb s o) in *. set (b1 := nthb s (o + 1)) in *. set (b2 := nthb s (o + 2)) in *. set (b3 := nthb s (o + 3)) in *.
-  rewrite (cc_c0 c Hc). destruct (negb (bit c 128 && bit c 64)) eqn:E1; [reflexivity|].
-  xstep. rewrite (cc_20 c Hc).
-  destruct (negb (bit c 32)) eqn:E2.
-  { (* two bytes *)
-    assert (uc_len_b c = 2%nat) as L by (destruct (bit c 32); cbn in *; try discriminate; apply Nat.eqb_eq; destruct (Nat.eqb (uc_len_b c) 2); [reflexivity|discriminate]).
-    xstep. fold_shl. rewrite (sh_1f_6 c Hc). xstep.
-    rewrite (load_str m b s _ (o + 1) Hs) by lia. xstep. fold b1.
-    rewrite (sx_3f b1 H1), of_N_lor. reflexivity. }
-  xstep. rewrite (cc_10 c Hc).
-  destruct (negb (bit c 16)) eqn:E3.
-  { assert (uc_len_b c = 3%nat) as L by (destruct (bit c 32), (bit c 16); cbn in *; try discriminate; apply Nat.eqb_eq; destruct (Nat.eqb (uc_len_b c) 3); [reflexivity|discriminate]).
-    xstep. fold_shl. rewrite (sh_0f_12 c Hc). xstep.
-    rewrite (load_str m b s _ (o + 1) Hs) by lia. xstep. fold b1. rewrite (sx_3f b1 H1).
-    fold_shl. rewrite (sh_3f_6 b1 H1). xstep.
-    rewrite (load_str m b s _ (o + 2) Hs) by lia. xstep. fold b2.
-    rewrite (sx_3f b2 H2), !of_N_lor. reflexivity. }
-  xstep. rewrite (cc_08 c Hc).
-  destruct (negb (bit c 8)) eqn:E4.
-  { assert (uc_len_b c = 4%nat) as L by (destruct (bit c 32), (bit c 16), (bit c 8); cbn in *; try discriminate; apply Nat.eqb_eq; destruct (Nat.eqb (uc_len_b c) 4); [reflexivity|discriminate]).
-    xstep. fold_shl. rewrite (sh_07_18 c Hc). xstep.
-    rewrite (load_str m b s _ (o + 1) Hs) by lia. xstep. fold b1. rewrite (sx_3f b1 H1).
-    fold_shl. rewrite (sh_3f_12 b1 H1). xstep.
-    rewrite (load_str m b s _ (o + 2) Hs) by lia. xstep. fold b2. rewrite (sx_3f b2 H2).
-    fold_shl. rewrite (sh_3f_6 b2 H2). xstep.
-    rewrite (load_str m b s _ (o + 3) Hs) by lia. xstep. fold b3.
-    rewrite (sx_3f b3 H3), !of_N_lor. reflexivity. }
-  xstep. reflexivity.
-Qed.
 
 (* ------------------------------------------------------------------ uc_end, uc_next *)
 Lemma cc_cont : forall c, (c < 256)%N -> (Z.land (Z.of_N c) 192 =? 128) = is_cont c.
